@@ -15,6 +15,7 @@ import (
 	"sort"
 	"strings"
 	"sync"
+	"time"
 )
 
 type Tier string
@@ -101,6 +102,7 @@ type Result struct {
 	Sample       any              `json:"sample,omitempty"`
 	Violations   []Violation      `json:"violations,omitempty"`
 	Emit         map[string]string `json:"emit,omitempty"` // values for supervisor-side (cross-process) oracles
+	WallMs       int64            `json:"wall_ms,omitempty"`
 }
 
 // Case is the per-case context handed to Prop.Run.
@@ -293,6 +295,8 @@ func Must(err error, what string) {
 
 // RunCase executes one case with panic classification and returns its result.
 func RunCase(c *Case) (res Result) {
+	t0 := time.Now()
+	defer func() { res.WallMs = time.Since(t0).Milliseconds() }()
 	defer c.cleanup()
 	func() {
 		defer func() {
